@@ -273,7 +273,8 @@ def check_fuse_roots(ctx, graph, keys, what):
 # ------------------------------------------------------------------------------------------------
 
 ANNS = [None, None, None, None, {}, {"retries": 2}, {"retries": 2}, {"priority": 1}, {"workers": ["a"]},
-        {"foo": 1}, {"foo": 1}, {"foo": 2}, {"retries": 1, "bar": 0}]
+        {"foo": 1}, {"foo": 1}, {"foo": 2}, {"retries": 1, "bar": 0}, {"allow_other_workers": True},
+        {"resources": {"GPU": 1}}, {"allow_other_workers": False, "priority": 1}]
 
 
 def gen_graph(rng):
